@@ -17,7 +17,7 @@ import (
 func init() {
 	Register("C04", &Info{
 		Run:   runC04,
-		Quick: 4500, Thor: 150000,
+		Quick: 4500, Thor: 500000,
 		Rule: "a world = one fingerprint (every predefined parrot by stratum, randomized seeds, fingerprinted copies, generated specs) observed over one real connection (hellos reassembled from the wire, incl. the hello after a HelloRetryRequest) plus 23 further ClientHellos built in the same world, plus one QUIC-style spec with GREASE transport parameters and a GREASE version-information entry; within-hello rules on every hello; freshness = >=2 distinct values among the 24 draws of each GREASE kind the fingerprint carries; non-trivial = the hello carries a GREASE value; distinct = (fingerprint, GREASE tuple of the wire hello)",
 		Assumptions: []string{"freshness threshold: 24 draws of a 16-valued GREASE nibble are all equal with probability 16^-23 for a uniform source; the world's random stream is a PRNG owned by the simulator, so a pass is a deterministic function of the seed"},
 		Real:        []string{"utls client from /repo", "utls or std server"},
